@@ -23,6 +23,10 @@ OPS = {
     "A=7": (0, "set A = 7", ("A", 7)),
     "A='x'": (0, "set A = 'x'", ("A", "x")),
     "A=bs": (0, "set A = 'back\\\\slash'", ("A", BS)),
+    # an escaped backslash followed by a letter that is itself an escape (the value is backslash + n, not a newline),
+    # and a real escape (the value contains a line break)
+    "A=bsn": (0, "set A = 'x\\\\ny'", ("A", "x\\ny")),
+    "A=nl": (0, "set A = 'l\\nb'", ("A", "l\nb")),
     "a=70": (0, "set a = 70", ("A", 70)),
     "A1=8": (0, "set A1 = 8", ("A1", 8)),
     "A10=9": (0, "set A10 = 9", ("A10", 9)),
@@ -44,7 +48,7 @@ OPS = {
     "c1 A10=1009": (1, "set A10 = 1009", ("A10", 1009)),
     "c1 unset A": (1, "unset A", ("A", None)),
 }
-QUICK_OPS = ["N=-5", "A=7", "A=bs", "a=70", "A1=8", "A10=9", "AB=$A", "S=a$b", "S=$A", "E=1+1", "unset A", "unset a1", "es Q=5", "c1 A=1000", "c1 unset A"]
+QUICK_OPS = ["N=-5", "A=7", "A=bs", "A=bsn", "A=nl", "a=70", "A1=8", "A10=9", "AB=$A", "S=a$b", "S=$A", "E=1+1", "unset A", "unset a1", "es Q=5", "c1 A=1000", "c1 unset A"]
 NAMES = ["A", "A1", "A10", "AB", "S", "E", "Q", "N"]
 NUMS = [7, 8, 9, 70, 1000, 1009]
 NONREF = [
@@ -81,8 +85,10 @@ def mkey(m):
 def vkind(v):
     if isinstance(v, int):
         return "int"
+    if "\n" in v:
+        return "newline"
     if "\\" in v:
-        return "backslash"
+        return "backslash_before_escape_letter" if "\\n" in v else "backslash"
     if "$" in v:
         return "dollar"
     if "'" in v:
